@@ -76,6 +76,7 @@ pub fn run_check(spec: CheckSpec, opts: &Opts) -> i32 {
       part: None,
       lane_index: li,
       tier_quick: opts.tier == Tier::Quick,
+      collect_hashes: false,
       replay_dir: format!("{}/replays", opts.verif_dir),
       shrink_budget: 1500,
     };
